@@ -335,6 +335,7 @@ func (g *Gen) Core() [][]Case {
 			blocks = append(blocks, []Case{a, va, ra, b}, []Case{vb, rb, va, ra})
 		}
 	case "c14":
+		blocks = append(blocks, g.ForeignAppStake())
 		// the documented special signers, once each with a good signature
 		nk := ro.Fresh[0]
 		blocks = append(blocks, []Case{
@@ -456,4 +457,35 @@ func (g *Gen) SignerNotInMsg() []Case {
 		mk("outputedit-lowoperator-back", edit(ro.NodeLow, ro.Out2.Addr), ro.Out3),
 		mk("apptransfer-to-funded-key-by-app", &appsTypes.MsgStake{PubKey: ro.NewApp.Pub, Chains: nil, Value: sdk.ZeroInt()}, ro.App2),
 	}
+}
+
+// ForeignAppStake: application MsgStake messages that are NOT transfer-shaped (amount > 0, chains
+// non-empty) and name SOMEBODY ELSE's public key, signed with a good signature by (a) a key that owns
+// a staked application, (b) a key that owns an unstaking application, (c) a key without application;
+// the victims are (i) an existing staked application (stake raised) and (ii) a funded account that
+// is not an application.  Only the key named in the message may sign such a message.
+func (g *Gen) ForeignAppStake() []Case {
+	ro := g.Ro
+	var out []Case
+	signers := []struct {
+		name string
+		k    chain.Key
+	}{{"stakedapp", ro.App2}, {"unstakingapp", ro.AppU}, {"noapp", ro.Rich[0]}}
+	victims := []struct {
+		name string
+		k    chain.Key
+		amt  int64
+	}{{"existingapp", ro.App, 12000000}, {"plainaccount", ro.NewApp, 10000000}}
+	for _, v := range victims {
+		for _, s := range signers {
+			g.entropy++
+			msg := chain.MsgAppStake(v.k, v.amt, []string{chain.ChainHash})
+			fee := sdk.Coins{sdk.Coin{Denom: "upokt", Amount: sdk.NewInt(g.reqFor(msg))}}
+			c := Case{Kind: fmt.Sprintf("core-foreignappstake-%s-by-%s/stranger/good/fee-equal", v.name, s.name), Variant: "-",
+				Raw: Build(TxSpec{Msg: msg, Fee: fee, Entropy: g.entropy, SignChain: g.ChainID, By: Single{s.k}})}
+			g.Sent = append(g.Sent, c)
+			out = append(out, c)
+		}
+	}
+	return out
 }
